@@ -3,8 +3,8 @@
    [plain v]      : no key or string of v is recognised by an evaluation phase ($merge:, $replace:, $"...",
                     $env:, $repeat, the directive keys), maps strictly sorted;
    [noesc v]      : no doubled dollar; [dn v]: v with null map values / list entries dropped;
-   [esc v]        : v with every $ doubled in every key and string; [sorted_both v]: maps sorted before and
-                    after escaping (escaping is monotone; stated per input, not proved);
+   [esc v]        : v with every $ doubled in every key and string; [swf v]: every map strictly sorted by key
+                    (the representation invariant of Go maps in the model; escaping is monotone, so it is kept);
    [height v]     : nesting depth; the evaluator's depth guard refuses documents deeper than [depth_limit]. *)
 From Coq Require Import String Ascii List ZArith.
 From Bkl Require Import Model.Value Model.Str Model.Eval Proofs.StrProofs Proofs.PlainProofs Proofs.EscapeProofs.
@@ -31,9 +31,9 @@ Print Assumptions C06_escaped_inert.
 
 (* doubling every $ in arbitrary data (any strings, keys and values, any depth) yields a document that
    evaluates to exactly the original data *)
-Theorem C06_escape : forall o v, sorted_both v -> height v <= depth_limit ->
+Theorem C06_escape : forall o v, swf v -> height v <= depth_limit ->
   eval_docs o [esc v] = Ok (match v with VNull => [] | _ => [dn v] end).
-Proof. exact eval_escaped. Qed.
+Proof. exact eval_escaped_swf. Qed.
 Print Assumptions C06_escape.
 
 (* non-vacuity: $FOO, ${X}, $(cmd) are plain; a tree over directive names is sorted both ways *)
@@ -42,4 +42,4 @@ Proof. repeat split; try reflexivity; cbn; intuition discriminate. Qed.
 Example C06_escape_example : forall o,
   eval_docs o [esc (VMap [("$merge", VStr "$required"); ("a", VList [VStr "$env:HOME"; VNull])])]
   = Ok [VMap [("$merge", VStr "$required"); ("a", VList [VStr "$env:HOME"])]].
-Proof. intro o. apply (eval_escaped o). - cbn. repeat split; repeat constructor. - cbn. unfold depth_limit. repeat constructor. Qed.
+Proof. intro o. apply (eval_escaped_swf o). - cbn. repeat split; repeat constructor. - cbn. unfold depth_limit. repeat constructor. Qed.
